@@ -440,6 +440,58 @@ def run(index, rep, tier):
         rep.floor("R19.15", "presence tests on the row map", 5, na)
         rep.floor("R19.15", "forgiving handlers in discard_sequences", 1, nb_)
 
+    # ---- R19.16 the argument may be the receiver
+    with rep.section("R19.16"):
+        rep.rule("R19.16", "the argument may be the receiver: a row operation of CharacterMatrix that takes another matrix never removes rows from itself (discard / remove / keep sequences, a del or clear on the row map) on a path that goes on to read that matrix - `m.update_sequences(m)`, `m.replace_sequences(m)` must leave m as it is, and with the rows dropped first there is nothing left to copy")
+        cm16 = index.klass("dendropy.datamodel.charmatrixmodel.CharacterMatrix")
+        n16 = 0
+        REMOVERS = ("discard_sequences", "remove_sequences", "keep_sequences", "clear", "clear_sequences", "purge")
+        for mname, mf in sorted(cm16.methods.items()):
+            others = [p_ for p_ in mf.params if p_ in ("other_matrix", "other", "char_matrix", "other_char_matrix")]
+            if not others or mname.startswith("__"):
+                continue
+            n16 += 1
+            pn = others[0]
+            g = cfg_of(mf)
+
+            def removes(nd):
+                for c in node_calls(nd):
+                    if isinstance(c.func, ast.Attribute) and c.func.attr in REMOVERS and norm(c.func.value) in ("self", "self._taxon_sequence_map"):
+                        return True
+                return nd.kind == "stmt" and isinstance(nd.ast, ast.Delete) and any(isinstance(t, ast.Subscript) and norm(t.value) in ("self", "self._taxon_sequence_map") for t in nd.ast.targets)
+
+            def reads_other(nd, pn=pn):
+                return any(isinstance(x, ast.Name) and x.id == pn for e in node_exprs(nd) + ([nd.ast] if nd.kind in ("forinit", "test") else []) if e is not None for x in ast.walk(e))
+            bad = None
+            for nd in g.nodes:
+                if removes(nd):
+                    w = g.can_reach(nd, reads_other, follow_exc=False)
+                    if w is not None:
+                        bad = (nd, w)
+                        break
+            rep.check(bad is None, "R19.16", mf.qualname, "rows removed before the argument is read", fn_where(mf, bad[0].stmt if bad else None), "%s never drops its own rows before reading `%s`" % (mname, pn),
+                      "%s removes rows of the receiver (`%s`) and afterwards reads `%s` (`%s`): when the argument IS the receiver - `m.%s(m)`, documented as replacing / adding rows from the argument - the first step empties the matrix and the second finds nothing to copy, so the matrix ends up with no rows" % (mf.qualname, norm_stmt(bad[0].stmt)[:50] if bad else "", pn, norm_stmt(bad[1].stmt)[:50] if bad and bad[1].stmt is not None else "", mname))
+        rep.floor("R19.16", "row operations taking another matrix", 4, n16)
+
+    # ---- R19.17 the first row is not the matrix
+    with rep.section("R19.17"):
+        rep.rule("R19.17", "the first row is not the matrix: `sequence_size` (alias `vector_size`) is the length of the FIRST row only - rows may differ in length (extend_sequences with a partly overlapping matrix, rows filled one by one), which is why the class has max_sequence_size. No method of the matrix classes refuses a request (a test that leads to a raise) by comparing with `self.sequence_size`: a valid column set would be refused on a matrix whose first row happens to be the short one")
+        n17 = 0
+        for f in index.functions_in_module("dendropy.datamodel.charmatrixmodel"):
+            if f.cls is None:
+                continue
+            g = cfg_of(f)
+            for nd in g.nodes:
+                if nd.kind == "test" and any(isinstance(x, ast.Attribute) and x.attr in ("sequence_size", "vector_size") and norm(x.value) == "self" for x in ast.walk(nd.ast)):
+                    n17 += 1
+                    r_ = raises_in_branch(g, nd, "t") or raises_in_branch(g, nd, "f")
+                    rep.check(r_ is None, "R19.17", f.qualname, "request refused by the first row's length", fn_where(f, nd.stmt), "%s: `%s` does not lead to a refusal" % (f.name, norm(nd.ast)[:50]),
+                              "%s raises on `%s`: sequence_size is the length of the first stored row, not the number of columns of the matrix - on a matrix with rows of different lengths (after extend_sequences with a partly overlapping matrix) a subset that every longer row can serve is refused, where the export is documented to give exactly the selected columns for every taxon" % (f.qualname, norm(nd.ast)[:60]))
+        ssz = index.klass("dendropy.datamodel.charmatrixmodel.CharacterMatrix").methods.get("_get_sequence_size")
+        if ssz is None:
+            raise AnalysisError("R19.17: CharacterMatrix._get_sequence_size is gone")
+        rep.ob("R19.17", ssz.qualname, "%d tests against self.sequence_size in the matrix classes examined" % n17, fn_where(ssz))
+
 
 def _r19_3(rep, fi, seeds):
     t = tainted_names(fi, seeds)
